@@ -31,7 +31,7 @@ def run(ctx):
     for s in ss:
         for t in ts:
             lines.append("P %s %s" % (bl(s), bl(t)))
-    for i in range(200 if quick else 4000):
+    for i in range(200 if quick else 20000):
         s = [rng.choice(A_S + (65, 122, 255, 1)) for _ in range(rng.randint(4, 9))]
         t = [rng.choice(A_T) for _ in range(rng.randint(0, 3))]
         if rng.random() < 0.5 and len(s) > 3:          # make the needle occur (overlapping occurrences included)
